@@ -34,8 +34,17 @@ func (d *Pegnetd) GetPegNetRateAverages(ctx context.Context, height uint32) (Avg
 		ratesOverPeriod = map[fat2.PTicker][]uint64{} //          create one.
 	}
 
+	// collected is set once all rates have been read
+	collected := false
+
 	defer func() { //                                           Always set up the cache when exiting the routine
 		verifGate("avg:publish")
+		if !collected { //                                        Reading the rates failed (panic below): the data is
+			d.LastAveragesData = nil //                             incomplete, so drop it rather than publish it
+			d.LastAveragesHeight = 0 //                             under this height; the next call reloads
+			d.LastAverages = nil
+			return
+		}
 		d.LastAveragesData = ratesOverPeriod //                   Save the data we used to create averages
 		d.LastAveragesHeight = height        //                   Save the height of this data
 		d.LastAverages = averages            //                   Save the averages we computed
@@ -103,6 +112,7 @@ func (d *Pegnetd) GetPegNetRateAverages(ctx context.Context, height uint32) (Avg
 		collectRatesAtHeight(height) //                         Add the current height to the dataset so far
 	}
 
+	collected = true
 	verifGate("avg:collected")
 	for k, v := range ratesOverPeriod { //                        The average rate is zero for any asset without
 		averages[k] = 0                                       //    the number of required rates
